@@ -1,8 +1,78 @@
 package main
 
+import "go/ast"
+
 // regenerated facts of the "misc" family (C45 C46 C47 C48 C49)
 
 func init() { families = append(families, factsMisc) }
 
+// returnTexts lists the results of every return statement of a function body in source order
+// (nested function literals excluded).
+func returnTexts(b ast.Node) []string {
+	var r []string
+	if b == nil {
+		return r
+	}
+	ast.Inspect(b, func(n ast.Node) bool {
+		switch s := n.(type) {
+		case *ast.FuncLit:
+			return false
+		case *ast.ReturnStmt:
+			t := ""
+			for i, e := range s.Results {
+				if i > 0 {
+					t += ", "
+				}
+				t += text(e)
+			}
+			r = append(r, t)
+		}
+		return true
+	})
+	return r
+}
+
 func factsMisc() {
+	// ---- C45: pkg/rules/rules.go matches — which return statements the loop over selector sets has
+	f := parse("pkg/rules/rules.go")
+	emitList("rulesMatchesReturns", "pkg/rules/rules.go matches: results of its return statements in source order",
+		returnTexts(body(fn(f, "", "matches"))))
+	emitStr("rulesMatchesTemplateScope", "pkg/rules/rules.go matches: is template.New called in the function body (one template shared by all labels) or inside the per-label closure",
+		templateScope(fn(f, "", "matches")))
+}
+
+// templateScope: "function" when template.New is called outside every function literal of fd,
+// "closure" when it is only called inside one, "unknown" otherwise.
+func templateScope(fd *ast.FuncDecl) string {
+	if fd == nil || fd.Body == nil {
+		return "unknown"
+	}
+	outer, inner := 0, 0
+	var walk func(n ast.Node, depth int)
+	walk = func(n ast.Node, depth int) {
+		ast.Inspect(n, func(m ast.Node) bool {
+			switch x := m.(type) {
+			case *ast.FuncLit:
+				walk(x.Body, depth+1)
+				return false
+			case *ast.CallExpr:
+				if callName(x) == "template.New" {
+					if depth == 0 {
+						outer++
+					} else {
+						inner++
+					}
+				}
+			}
+			return true
+		})
+	}
+	walk(fd.Body, 0)
+	switch {
+	case outer > 0 && inner == 0:
+		return "function"
+	case outer == 0 && inner > 0:
+		return "closure"
+	}
+	return "unknown"
 }
